@@ -906,9 +906,10 @@ i_generate_loop (int test_first, parse_node_t * block,
     i_generate_node (inc);
   if (!forever && test_first)
     i_update_forward_branch ();
-  if (test->v.number == F_LOOP_COND_LOCAL ||
-      test->v.number == F_LOOP_COND_NUMBER ||
-      test->v.number == F_NEXT_FOREACH)
+  /* v.number is an opcode only in opcode nodes: in 'while (31)' it is the constant */
+  if ((test->kind == NODE_OPCODE_2 &&
+       (test->v.number == F_LOOP_COND_LOCAL || test->v.number == F_LOOP_COND_NUMBER)) ||
+      (test->kind == NODE_OPCODE && test->v.number == F_NEXT_FOREACH))
     {
       i_generate_node (test);
       ins_short ((short)(CURRENT_PROGRAM_SIZE - pos));
